@@ -113,6 +113,33 @@ func digestIn(data []index.Data) string {
 }
 
 // viewSig reads everything through the view. battery: search queries.
+// prefetch makes viewSig use the PrefetchAllTags option (what the HTTP API
+// does for stream lists): pending tags are evaluated inside the view.
+var prefetch = false
+
+func viewSigPrefetch(v *manager.View) *ViewSig {
+	sig := &ViewSig{}
+	names, err := v.VerifIndexNames()
+	if err != nil {
+		sig.Err = "fetch: " + err.Error()
+		return sig
+	}
+	sig.Indexes = names
+	err = v.AllStreams(context.Background(), func(sc manager.StreamContext) error {
+		tags, err := sc.AllTags()
+		if err != nil {
+			return err
+		}
+		sig.Streams = append(sig.Streams, StreamLite{ID: sc.Stream().ID(), Tags: tags})
+		return nil
+	}, manager.PrefetchAllTags())
+	if err != nil {
+		sig.Err = "AllStreams(PrefetchAllTags): " + err.Error()
+	}
+	sort.Slice(sig.Streams, func(i, j int) bool { return sig.Streams[i].ID < sig.Streams[j].ID })
+	return sig
+}
+
 func viewSig(v *manager.View, withTags bool, battery []string, convs []string) *ViewSig {
 	sig := &ViewSig{}
 	names, err := v.VerifIndexNames()
@@ -227,6 +254,10 @@ func (st *clientState) exec(op Op) (r OpResult) {
 		r.Tags = mgr.ListTags()
 	case "Recompute":
 		r.G, r.GErr = mgr.VerifRecompute()
+	case "FreshViewPrefetch":
+		v := mgr.GetView()
+		r.View = viewSigPrefetch(&v)
+		v.Release()
 	case "FreshView":
 		v := mgr.GetView()
 		var battery []string
